@@ -143,6 +143,7 @@ func (s *Scope) Scope(name string, opts ...ScopeOption) *Scope {
 	}
 
 	s.childScopes = append(s.childScopes, child)
+	verifTraceScope(s, child)
 	return child
 }
 
